@@ -419,6 +419,7 @@ class Body:
         self.blocks = {}
         self.kind = 'fn'
         self.span_line = None
+        self.debug = {}
 
 
 def parse_header(line):
@@ -510,7 +511,10 @@ def parse_mir(text):
             continue
         if blk is None:
             m = re.match(r'let (mut )?_(\d+): (.*);$', s)
-            if m:
+            md = re.match(r'debug (\w+) => _(\d+);$', s)
+            if md:
+                cur.debug.setdefault(md.group(1), int(md.group(2)))
+            elif m:
                 cur.locals[int(m.group(2))] = m.group(3)
             else:
                 m = re.match(r'(bb\d+)( \(cleanup\))?: \{$', s)
